@@ -79,6 +79,16 @@ MCCrash(op, p, n) ==
   /\ nVal' = nVal + Count(op) /\ hist' = Append(hist, last')
   /\ UNCHANGED <<nOps, nPost, pts, nRec>>
 
+\* a crash between any two effects of op (boundaries without a named crash point included)
+MCCrashAfter(op, k) ==
+  /\ ~GenMode
+  /\ phase = "pre" /\ nOps < MaxOps
+  /\ DoCrashAfter(op, k)
+  /\ phase' = "down" /\ pre' = Snapshot(op, "effect")
+  /\ last' = [a |-> "Crash", op |-> op, p |-> "effect", n |-> k]
+  /\ nVal' = nVal + Count(op) /\ hist' = Append(hist, last')
+  /\ UNCHANGED <<nOps, nPost, pts, nRec>>
+
 \* torn write: the append is killed inside its log write, k complete records kept
 MCCrashTorn(op, k) ==
   /\ ~GenMode
@@ -124,8 +134,10 @@ MCSwitch ==
 MCNext ==
   \/ MCSwitch
   \/ \E op \in Ops : MCOp(op)
-  \/ \E op \in Ops : \E c \in Sites(op) : c.n <= MaxHit /\ MCCrash(op, c.p, c.n)
+  \* (a crash in front of a named crash point is the crash after the effects that precede the
+  \*  marker, so MCCrashAfter subsumes MCCrash(op, p, n); the named form is what the harness injects)
   \/ \E op \in {o \in Ops : o.a \in {"Append", "AppendSet"}} : \E k \in 0..(Len(op.recs) - 1) : MCCrashTorn(op, k)
+  \/ \E op \in Ops : \E k \in 0..Len(Plan(fs, mem, op)) : MCCrashAfter(op, k)
   \/ MCRecover
   \/ \E c \in RecSites : MCRecoverCrash(c.p, c.n)
   \/ \E op \in Ops : MCPost(op)
